@@ -133,14 +133,11 @@ def run (j : Json) : Except String Json := do
     ("wrapper", Json.bool (wrapperOk S (c.fields.map Fld.name) ovKeys)),
     ("hyp", Json.mkObj [
       ("rt", Json.bool (rtCls S camel (levelOK S) c ms ov strict xc)),
-      ("rtNoCap", Json.bool (rtCls S camel (fun a b _ k => levelOK S a b true k) c ms ov strict xc)),
       ("dom", Json.bool (rtCls S camel (levelDom S) c ms ov strict xc)),
-      ("keys", Json.bool (rtCls S camel levelKeys c ms ov strict xc)),
       ("sync", Json.bool (syncOK ms md kvs)),
       ("nodot", Json.bool (noDotOK S ms kvs)),
       ("inj", Json.bool (injOK ms kvs)),
       ("absent", Json.bool (absentKeyOK ms kvs)),
-      ("nocapture", Json.bool (noCaptureOK ms strict kvs)),
       ("level", Json.bool (levelOK S ms md strict kvs))])]
   let extra ← match optField j "doc2" with
     | none => pure []
